@@ -5,6 +5,8 @@ package main
 // C01 — per-topic message ids are unique, gapless and follow acceptance order.
 
 import (
+	"strings"
+	"github.com/tinode/chat/server/store/types"
 	"encoding/json"
 	"fmt"
 	"sort"
@@ -33,6 +35,9 @@ type c01Fault struct {
 type c01Phase struct {
 	Acts  []c01Act `json:"acts"`
 	Fault c01Fault `json:"fault"`
+	// Reload: k > 0 = before the phase every client leaves topic k-1, the topic idles out and is loaded
+	// again by the {sub}s that open the phase
+	Reload int `json:"reload,omitempty"`
 }
 
 type c01Prog struct {
@@ -52,7 +57,7 @@ func genC01(rt *rapid.T) c01Prog {
 		for j := 0; j < n; j++ {
 			a := c01Act{
 				Client: rapid.IntRange(0, 7).Draw(rt, "client"),
-				Kind:   rapid.SampledFrom([]string{"pub", "pub", "pub", "pub", "pubne", "obo", "leave", "resub", "getdata", "getdesc", "getsub", "disc"}).Draw(rt, "kind"),
+				Kind:   rapid.SampledFrom([]string{"pub", "pub", "pub", "pub", "pubne", "obo", "leave", "resub", "getdata", "getdesc", "getsub", "disc", "unsub", "resub"}).Draw(rt, "kind"),
 				Topic:  rapid.IntRange(0, 3).Draw(rt, "topic"),
 			}
 			if rapid.IntRange(0, 5).Draw(rt, "delayed") == 0 {
@@ -67,6 +72,11 @@ func genC01(rt *rapid.T) c01Prog {
 				Method: rapid.SampledFrom(c01FaultMethods).Draw(rt, "fmethod"),
 				At:     rapid.IntRange(1, 6).Draw(rt, "fat"),
 				After:  rapid.Bool().Draw(rt, "fafter"),
+			}
+		}
+		if i > 0 {
+			if r := rapid.IntRange(0, 9).Draw(rt, "reload"); r <= 4 {
+				ph.Reload = r
 			}
 		}
 		p.Phases = append(p.Phases, ph)
@@ -140,6 +150,17 @@ func runC01(t *testing.T, sched simrt.Schedule, prog c01Prog) ([]Violation, RunS
 					}
 				}
 			}
+			if ph.Reload > 0 && len(prog.Sc.Groups)+len(prog.Sc.P2P) > 0 {
+				lv := map[int][]*Op{}
+				for _, c := range w.Clients {
+					if c.Connected {
+						lv[c.Idx] = []*Op{opLeave(c01TopicName(prog.Sc, c, ph.Reload-1), false)}
+						ops[c.Idx] = append(ops[c.Idx], opSub(c01TopicName(prog.Sc, c, ph.Reload-1), "", ""))
+					}
+				}
+				w.runPhase(lv)
+				simrt.Probe("c01.idle_reload")
+			}
 			for _, a := range ph.Acts {
 				c := w.Clients[a.Client%len(w.Clients)]
 				name := c01TopicName(prog.Sc, c, a.Topic)
@@ -148,6 +169,8 @@ func runC01(t *testing.T, sched simrt.Schedule, prog c01Prog) ([]Violation, RunS
 				}
 				var op *Op
 				switch a.Kind {
+				case "unsub":
+					op = opLeave(name, true)
 				case "pub", "pubne":
 					tagN++
 					op = opPub(name, fmt.Sprintf("t%d.%d", pi, tagN), a.Kind == "pubne")
@@ -252,6 +275,34 @@ func c01Oracle(w *simWorld, faultEvs []int) (out []Violation, trigger bool) {
 	// shown[topic] = list of (ev, seq) for every number shown to any client
 	type shownAt struct{ ev, seq int }
 	shown := map[string][]shownAt{}
+	// A deleted topic (last p2p participant unsubscribed) may come back under the same name: numbering
+	// starts over. Every observation is keyed by topic incarnation = name + number of deletions before it.
+	delEvs := map[string][]int{}
+	for _, sc := range simStore.Log {
+		if sc.Method == "TopicDelete" && len(sc.Args) > 0 && sc.Err == "" {
+			if name, ok := sc.Args[0].(string); ok {
+				delEvs[name] = append(delEvs[name], sc.Ev)
+			}
+		}
+	}
+	ek := func(topic string, ev int) string {
+		n := 0
+		for _, d := range delEvs[topic] {
+			if d <= ev {
+				n++
+			}
+		}
+		if n == 0 {
+			return topic
+		}
+		return fmt.Sprintf("%s#%d", topic, n)
+	}
+	base := func(k string) string {
+		if i := strings.IndexByte(k, '#'); i >= 0 {
+			return k[:i]
+		}
+		return k
+	}
 	unans := map[string][]*Sent{}   // topic -> publishes that never got any reply (lost with a connection or a crash)
 	pubByTag := map[string]*Sent{}  // content tag -> the publish that carried it
 	pubTopic := map[string]string{} // content tag -> global topic
@@ -271,7 +322,7 @@ func c01Oracle(w *simWorld, faultEvs []int) (out []Violation, trigger bool) {
 				pubTopic[tag] = topic
 			}
 			if s.Code == 0 {
-				unans[topic] = append(unans[topic], s)
+				unans[ek(topic, s.Ev)] = append(unans[ek(topic, s.Ev)], s)
 			}
 			if s.Code == 202 && s.Ctrl != nil {
 				pm, _ := s.Ctrl.Params.(map[string]any)
@@ -281,29 +332,30 @@ func c01Oracle(w *simWorld, faultEvs []int) (out []Violation, trigger bool) {
 					out = append(out, vio("C01", "ack-without-seq", "publish %s acknowledged 202 without a positive seq: %v", s.Id, canon(s.Ctrl.Params)))
 					continue
 				}
-				acc = append(acc, c01Accepted{Topic: topic, Seq: seq, Tag: tag, SentEv: s.Ev, AckEv: s.CtrlEv, Inc: s.Inc, Client: c.Idx, Conn: s.Conn})
-				note(topic, seq, tag, s.CtrlEv)
-				shown[topic] = append(shown[topic], shownAt{s.CtrlEv, seq})
+				acc = append(acc, c01Accepted{Topic: ek(topic, s.CtrlEv), Seq: seq, Tag: tag, SentEv: s.Ev, AckEv: s.CtrlEv, Inc: s.Inc, Client: c.Idx, Conn: s.Conn})
+				note(ek(topic, s.CtrlEv), seq, tag, s.CtrlEv)
+				shown[ek(topic, s.CtrlEv)] = append(shown[ek(topic, s.CtrlEv)], shownAt{s.CtrlEv, seq})
 			}
 		}
 		for _, f := range c.Frames {
 			m := f.Msg
 			switch {
 			case m.Data != nil:
-				topic := w.globalName(c, m.Data.Topic)
+				topic := ek(w.globalName(c, m.Data.Topic), f.Ev)
 				if tag, ok := m.Data.Content.(string); ok && m.Data.DeletedAt == nil {
 					note(topic, m.Data.SeqId, tag, f.Ev)
 				}
 				shown[topic] = append(shown[topic], shownAt{f.Ev, m.Data.SeqId})
 			case m.Meta != nil:
-				topic := w.globalName(c, m.Meta.Topic)
+				topic := ek(w.globalName(c, m.Meta.Topic), f.Ev)
 				if m.Meta.Desc != nil && m.Meta.Desc.SeqId > 0 && m.Meta.Topic != "me" {
 					shown[topic] = append(shown[topic], shownAt{f.Ev, m.Meta.Desc.SeqId})
 				}
 				if m.Meta.Topic == "me" {
 					for _, sub := range m.Meta.Sub {
 						if sub.SeqId > 0 && sub.Topic != "" {
-							shown[w.globalName(c, sub.Topic)] = append(shown[w.globalName(c, sub.Topic)], shownAt{f.Ev, sub.SeqId})
+							st := ek(w.globalName(c, sub.Topic), f.Ev)
+							shown[st] = append(shown[st], shownAt{f.Ev, sub.SeqId})
 						}
 					}
 				}
@@ -313,7 +365,7 @@ func c01Oracle(w *simWorld, faultEvs []int) (out []Violation, trigger bool) {
 					if topic == "me" {
 						topic = m.Pres.Src
 					}
-					topic = w.globalName(c, topic)
+					topic = ek(w.globalName(c, topic), f.Ev)
 					shown[topic] = append(shown[topic], shownAt{f.Ev, m.Pres.SeqId})
 				}
 			}
@@ -325,7 +377,7 @@ func c01Oracle(w *simWorld, faultEvs []int) (out []Violation, trigger bool) {
 			var content any
 			json.Unmarshal(m.Content, &content)
 			if tag, ok := content.(string); ok {
-				note(topic, m.SeqId, tag, 1<<30)
+				note(ek(topic, 1<<30), m.SeqId, tag, 1<<30)
 			}
 		}
 	}
@@ -343,6 +395,8 @@ func c01Oracle(w *simWorld, faultEvs []int) (out []Violation, trigger bool) {
 				out = append(out, vio("C01", "stored-unknown-message", "topic %s seq %d holds %q which nobody published", topic, m.SeqId, tag))
 			case pubTopic[tag] != topic:
 				out = append(out, vio("C01", "stored-in-wrong-topic", "message %q published to %s is stored in %s", tag, pubTopic[tag], topic))
+			case p.Code >= 500:
+				out = append(out, vio("C01", "failed-publish-stored", "publish %q answered %d (failed save) is stored in %s as seq %d", tag, p.Code, topic, m.SeqId))
 			case p.Code >= 300:
 				out = append(out, vio("C03", "rejected-publish-stored", "publish %q answered %d is stored in %s as seq %d", tag, p.Code, topic, m.SeqId))
 			}
@@ -402,7 +456,7 @@ func c01Oracle(w *simWorld, faultEvs []int) (out []Violation, trigger bool) {
 				for _, fe := range faultEvs {
 					if fe >= prev.SentEv && fe <= a.AckEv {
 						for _, sc := range simStore.Log {
-							if sc.Method == "TopicGet" && len(sc.Args) > 0 && sc.Args[0] == tname && sc.Ev >= fe && sc.Ev <= a.AckEv {
+							if sc.Method == "TopicGet" && len(sc.Args) > 0 && sc.Args[0] == base(tname) && sc.Ev >= fe && sc.Ev <= a.AckEv {
 								faultBetween = true
 							}
 						}
@@ -435,8 +489,11 @@ func c01Oracle(w *simWorld, faultEvs []int) (out []Violation, trigger bool) {
 			}
 		}
 		// (6) the Disk holds every acknowledged message under its number, and its topic row is at least that high
+		if tname != ek(base(tname), 1<<30) {
+			continue // an earlier incarnation of a deleted topic: nothing of it is in the store
+		}
 		disk := map[int]string{}
-		for _, m := range w.Disk.Messages[tname] {
+		for _, m := range w.Disk.Messages[base(tname)] {
 			var content any
 			json.Unmarshal(m.Content, &content)
 			if s, ok := content.(string); ok {
@@ -448,13 +505,16 @@ func c01Oracle(w *simWorld, faultEvs []int) (out []Violation, trigger bool) {
 			if a.Seq > maxAck {
 				maxAck = a.Seq
 			}
+			if tr := w.Disk.Topics[base(tname)]; tr == nil || tr.State == types.StateDeleted {
+				continue // the topic was deleted (last p2p participant unsubscribed): its messages went with it
+			}
 			if got, ok := disk[a.Seq]; !ok {
 				out = append(out, vio("C01", "acked-not-durable", "topic %s: acknowledged seq %d (%q) is not in the store", tname, a.Seq, a.Tag))
 			} else if got != a.Tag {
 				out = append(out, vio("C01", "acked-wrong-content", "topic %s: seq %d acknowledged for %q but the store holds %q", tname, a.Seq, a.Tag, got))
 			}
 		}
-		if tr := w.Disk.Topics[tname]; tr != nil && tr.SeqId < maxAck {
+		if tr := w.Disk.Topics[base(tname)]; tr != nil && tr.SeqId < maxAck {
 			out = append(out, vio("C01", "topic-row-behind", "topic %s: stored seqid %d < acknowledged %d", tname, tr.SeqId, maxAck))
 		}
 	}
@@ -468,6 +528,9 @@ func c01Oracle(w *simWorld, faultEvs []int) (out []Violation, trigger bool) {
 			list := byTopic[tname]
 			if list[0].Seq > 1+len(unans[tname]) && w.Crashes == 0 {
 				out = append(out, vio("C01", "first-number", "topic %s: first accepted number is %d", tname, list[0].Seq))
+			}
+			if tname != ek(base(tname), 1<<30) {
+				continue
 			}
 			if ts := sn.Topics[tname]; ts != nil {
 				if tr := w.Disk.Topics[tname]; tr != nil && tr.SeqId != ts.LastID {
